@@ -54,6 +54,8 @@ impl Database {
         table_name: &str,
         rows: &[Vec<OwnedValue>],
     ) -> Result<usize> {
+        use crate::database::dml::mvcc_helpers::wrap_record_into_buffer;
+
         if rows.is_empty() {
             return Ok(0);
         }
@@ -95,6 +97,24 @@ impl Database {
             crate::storage::FileManager::make_table_key(schema_name, table_name);
         let mut record_builder = crate::records::RecordBuilder::new(&schema);
         let mut record_buffer = Vec::with_capacity(256);
+        let mut mvcc_buffer = Vec::with_capacity(256 + 17);
+
+        // Every reader strips the MVCC record header, so the rows must carry one
+        // (a bare record makes the whole table unreadable).
+        let (txn_id, in_transaction) = {
+            let active_txn = self.active_txn.lock();
+            if let Some(ref txn) = *active_txn {
+                (txn.txn_id, true)
+            } else {
+                (
+                    self.shared
+                        .txn_manager
+                        .global_ts
+                        .fetch_add(1, Ordering::SeqCst),
+                    false,
+                )
+            }
+        };
 
         let count;
 
@@ -119,7 +139,11 @@ impl Database {
                     &mut record_builder,
                     &mut record_buffer,
                 )?;
-                btree.insert_append(&row_key, &record_buffer)?;
+                wrap_record_into_buffer(txn_id, &record_buffer, in_transaction, &mut mvcc_buffer);
+                if in_transaction {
+                    self.add_insert_write_entry(table_id as u32, &row_key);
+                }
+                btree.insert_append(&row_key, &mvcc_buffer)?;
             }
 
             root_page = btree.root_page();
@@ -141,7 +165,11 @@ impl Database {
                     &mut record_builder,
                     &mut record_buffer,
                 )?;
-                btree.insert_append(&row_key, &record_buffer)?;
+                wrap_record_into_buffer(txn_id, &record_buffer, in_transaction, &mut mvcc_buffer);
+                if in_transaction {
+                    self.add_insert_write_entry(table_id as u32, &row_key);
+                }
+                btree.insert_append(&row_key, &mvcc_buffer)?;
             }
 
             root_page = btree.root_page();
@@ -510,6 +538,22 @@ impl Database {
         }
 
         Ok(stats.row_count)
+    }
+
+    /// Registers a row stored by the open transaction so that COMMIT unlocks it and
+    /// ROLLBACK removes it.
+    fn add_insert_write_entry(&self, table_id: u32, row_key: &[u8]) {
+        if let Some(ref mut txn) = *self.active_txn.lock() {
+            txn.add_write_entry(crate::mvcc::WriteEntry {
+                table_id,
+                key: row_key.to_vec(),
+                page_id: 0,
+                offset: 0,
+                undo_page_id: None,
+                undo_offset: None,
+                is_insert: true,
+            });
+        }
     }
 
     fn get_or_load_index_storage(
